@@ -39,7 +39,7 @@ def handleTokens (inp : List String) (obs : String) : Verdict :=
         let tags := tags ++ [s!"cycles{min h.length 4}"] ++ (if w.ops.any (· == Op.reject) then ["rejected-push"] else []) ++ (if spawned ≥ 1 && !w.sched.isEmpty then ["nt"] else [])
         if obs == "crash" || obs.startsWith "panic" then fail "harness-process-or-goroutine-panicked" tags
         else if obs == "hang" then fail "hang" tags
-        else if w.chunk = 0 || w.flt.isSome then (if m == impl then ok tags else diff m tags)
+        else if w.chunk = 0 || !w.flt.isEmpty || w.abandon then (if m == impl then ok tags else diff m tags)
         else
           match implToks with
           | _ :: st :: _ :: _ :: _ :: outToks =>
